@@ -94,9 +94,15 @@ Casts ==
   \cup {<<"trusted_proxy_headers", "x-forwarded-for", "[\"x-forwarded-for\"]">>,
         <<"trusted_proxy_headers", "x-forwarded-for x-forwarded-proto", "[\"x-forwarded-for\", \"x-forwarded-proto\"]">>,
         <<"trusted_proxy_headers", "x-forwarded-for\nx-forwarded-proto", "[\"x-forwarded-for\", \"x-forwarded-proto\"]">>,
-        <<"trusted_proxy_headers", "Forwarded", "[\"forwarded\"]">>}
+        <<"trusted_proxy_headers", "Forwarded", "[\"forwarded\"]">>,
+        (* any run of white space separates list items; leading / trailing white space is ignored *)
+        <<"trusted_proxy_headers", "x-forwarded-for  x-forwarded-proto", "[\"x-forwarded-for\", \"x-forwarded-proto\"]">>,
+        <<"trusted_proxy_headers", "x-forwarded-for\tx-forwarded-proto", "[\"x-forwarded-for\", \"x-forwarded-proto\"]">>,
+        <<"trusted_proxy_headers", " x-forwarded-for ", "[\"x-forwarded-for\"]">>,
+        <<"trusted_proxy_headers", "x-forwarded-for \n x-forwarded-proto", "[\"x-forwarded-for\", \"x-forwarded-proto\"]">>}
   \cup {<<"listen", "127.0.0.1:8081", "same">>, <<"listen", "127.0.0.1:8081 127.0.0.1:8082", "same">>,
-        <<"listen", "127.0.0.1:8081\n127.0.0.1:8082", "same">>}
+        <<"listen", "127.0.0.1:8081\n127.0.0.1:8082", "same">>, <<"listen", "127.0.0.1:8081  127.0.0.1:8082", "same">>,
+        <<"listen", "127.0.0.1:8081\t127.0.0.1:8082 ", "same">>}
 
 -----------------------------------------------------------------------------
 VARIABLES phase, item
